@@ -141,6 +141,34 @@ def transform(program, pkgpath, rng, kinds):
     return p, renamed
 
 
+def scatter_decls(program, pkgpath, fname, rng):
+    """Distribute the top-level declarations (with their doc comments) of file fname of package pkgpath over one to three
+    files whose names sort before, between and after the other files of the package, in a random order."""
+    import copy
+    p = copy.deepcopy(program)
+    pk = [x for x in p["pkgs"] if x["path"] == pkgpath][0]
+    fs = [f for f in pk["files"] if f["name"] == fname]
+    if not fs:
+        return p
+    f = fs[0]
+    pkgline, blocks = split(f["src"])
+    m = re.search(r"^import \((.*?)^\)", f["src"], re.M | re.S)
+    if m or re.search(r"^import ", f["src"], re.M):
+        return p   # declarations that need imports of their own stay where they are
+    d = fname.rsplit("/", 1)[0]
+    names = ["%s/%s_decls.go" % (d, x) for x in rng.sample(["a0", "e9", "k5", "zy", "zzz"], rng.randrange(1, 4))]
+    buckets = {n: [] for n in names}
+    rng.shuffle(blocks)
+    for b in blocks:
+        buckets[rng.choice(names)].append(b)
+    pk["files"] = [x for x in pk["files"] if x["name"] != fname]
+    for n, bs in buckets.items():
+        if bs:
+            pk["files"].append({"name": n, "src": pkgline + "\n\n" + "\n\n".join("\n".join(b) for b in bs) + "\n"})
+    pk["files"].sort(key=lambda x: x["name"])
+    return p
+
+
 def locate(program, pkgpath, text):
     """(file, line) of the unique line whose stripped content equals text."""
     hits = []
